@@ -520,9 +520,7 @@ theorem init_p5 (σ : Static) (work : Option Work) (hw : workOptOk σ {} {} none
     have c' : Closed σ (({} : EnvSt).intro (some w)) := by
       apply closed_intro σ {} w (closed_empty σ) ok
       intro g hg p hp
-      rcases workOk_parent σ {} {} none w hw g hg p hp with h | ⟨n, hn⟩
-      · exact Or.inl h
-      · simp [alookup] at hn
+      exact workOk_parent σ {} {} none w hw g hg p hp
     obtain ⟨gi, fi, ni, mi, si, sni⟩ := integrateWork_good σ {} {} w none (good_empty σ {}) ok
     have hdet : ∀ x ∈ (integrateWork σ {} (some w) none).2.1,
         Detached (integrateWork σ {} (some w) none).1 x := by
